@@ -405,7 +405,8 @@ theorem due_false {t d : Nat} {incl : Bool} (h : due t incl d = false) : t ≤ d
 
 /-- What `advance` does: nothing, or one silent firing of the reset task; afterwards no timer is due. -/
 theorem advance_spec {c : Cfg} {s s1 : St} {t : Nat} {incl : Bool} (ha : advance c s t incl = some s1) :
-    (s1 = s ∨ ∃ r, s.resetAt = some r ∧ due t incl r = true ∧ s1 = (fireReset c s r).1 ∧ (fireReset c s r).2 = []) ∧
+    (s1 = s ∨ ∃ r, s.resetAt = some r ∧ due t incl r = true ∧ resetFirst s r = true ∧ s1 = (fireReset c s r).1 ∧
+        (fireReset c s r).2 = []) ∧
     (∀ d, s1.resetAt = some d → due t incl d = false) ∧ (∀ d, s1.ctxAt = some d → due t incl d = false) := by
   unfold advance at ha
   cases h1 : advance1 c s t incl with
@@ -428,9 +429,8 @@ theorem advance_spec {c : Cfg} {s s1 : St} {t : Nat} {incl : Bool} (ha : advance
             by_cases hemp : (fireReset c s r).2.isEmpty = true
             · simp only [hemp, ↓reduceIte, Option.some.injEq] at h1
               right
-              refine ⟨r, rfl, ?_, h1.symm, ?_⟩
-              · simp only [Bool.and_eq_true] at hdue; exact hdue.1
-              · simpa using hemp
+              simp only [Bool.and_eq_true] at hdue
+              exact ⟨r, rfl, hdue.1, hdue.2, h1.symm, by simpa using hemp⟩
             · simp [hemp] at h1
           · simp only [hdue, Bool.false_eq_true, ↓reduceIte, Option.some.injEq] at h1
             left; exact h1.symm
@@ -445,7 +445,7 @@ theorem advance_spec {c : Cfg} {s s1 : St} {t : Nat} {incl : Bool} (ha : advance
 
 theorem advance_frame {c : Cfg} {s s1 : St} {t : Nat} {incl : Bool} (ha : advance c s t incl = some s1) :
     s1.now = s.now ∧ s1.expect = s.expect ∧ s1.log = s.log ∧ s1.lastOn = s.lastOn := by
-  rcases (advance_spec ha).1 with rfl | ⟨r, _, _, rfl, _⟩
+  rcases (advance_spec ha).1 with rfl | ⟨r, _, _, _, rfl, _⟩
   · simp
   · have hp := fireReset_props c s r
     exact ⟨hp.2.2.2.1, hp.2.2.2.2.1, hp.2.2.2.2.2.1, hp.2.2.1⟩
@@ -453,7 +453,7 @@ theorem advance_frame {c : Cfg} {s s1 : St} {t : Nat} {incl : Bool} (ha : advanc
 theorem advance_RInvAt {c : Cfg} {s s1 : St} {t : Nat} {incl : Bool} (h : RInvAt c s s.now) (ht : s.now ≤ t)
     (ha : advance c s t incl = some s1) : RInvAt c s1 t := by
   obtain ⟨hcase, hnd, _⟩ := advance_spec ha
-  rcases hcase with rfl | ⟨r, _, _, rfl, _⟩
+  rcases hcase with rfl | ⟨r, _, _, _, rfl, _⟩
   · exact h.mono ht (fun d hd => (due_false (hnd d hd)).1)
   · exact (fireReset_RInvAt c s s.now r h).mono ht (fun d hd => (due_false (hnd d hd)).1)
 
@@ -639,7 +639,7 @@ theorem HInv_init (c : Cfg) : HInv c [] init :=
 
 theorem advance_reset {c : Cfg} {s s1 : St} {t : Nat} {incl : Bool} (ha : advance c s t incl = some s1) :
     s1.resetAt = s.resetAt ∨ s1.resetAt = none := by
-  rcases (advance_spec ha).1 with rfl | ⟨r, _, _, rfl, _⟩
+  rcases (advance_spec ha).1 with rfl | ⟨r, _, _, _, rfl, _⟩
   · left; rfl
   · right; exact (fireReset_props c s r).1
 
@@ -827,7 +827,7 @@ theorem step_KInv (c : Cfg) (s : St) (e : Obs) (s' : St) (hi : RInv c s) (hk : K
         rcases hres with hres | hres
         · rw [hres]; exact h
         · -- a switch never fires silently
-          rcases (advance_spec ha).1 with rfl | ⟨r', _, _, _, hemp⟩
+          rcases (advance_spec ha).1 with rfl | ⟨r', _, _, _, _, hemp⟩
           · exact h
           · have := fireReset_switch_outs (c := c) s r' hsw
             rw [hemp] at this; cases this
@@ -840,7 +840,7 @@ theorem step_KInv (c : Cfg) (s : St) (e : Obs) (s' : St) (hi : RInv c s) (hk : K
     have hfr := advance_frame ha
     have h1 := advance_RInvAt hi.at_ hnow ha
     have hsame : s1 = s := by
-      rcases (advance_spec ha).1 with h | ⟨r', _, _, _, hemp⟩
+      rcases (advance_spec ha).1 with h | ⟨r', _, _, _, _, hemp⟩
       · exact h
       · have := fireReset_switch_outs (c := c) s r' hsw
         rw [hemp] at this; cases this
@@ -897,7 +897,7 @@ theorem step_KInv (c : Cfg) (s : St) (e : Obs) (s' : St) (hi : RInv c s) (hk : K
     subst hs
     have hfr := advance_frame ha
     have hsame : s1 = s := by
-      rcases (advance_spec ha).1 with h | ⟨r', _, _, _, hemp⟩
+      rcases (advance_spec ha).1 with h | ⟨r', _, _, _, _, hemp⟩
       · exact h
       · have := fireReset_switch_outs (c := c) s r' hsw
         rw [hemp] at this; cases this
@@ -908,6 +908,200 @@ theorem KInv_run (c : Cfg) (tr : List Obs) (s : St) (h : run? (step? c) init tr 
   have := inv_run? (step? c) (fun s => RInv c s ∧ KInv c s)
     (fun s e s' hi hs => ⟨step_RInv c s e s' hi.1 hs, step_KInv c s e s' hi.1 hi.2 hs⟩)
     tr init s ⟨RInv_init c, by intro _ l r hl; simp [init] at hl⟩ h
+  exact this.2
+
+
+/-! ### The press counter -/
+
+/-- Invariant of the context window, relative to a clock reading `t`. -/
+structure CInvAt (c : Cfg) (s : St) (t : Nat) : Prop where
+  /-- an armed context task is not overdue and is due `context_timeout` after the last counted event -/
+  dl : ∀ d, s.ctxAt = some d → t ≤ d ∧ ∃ l, s.lastSet = some l ∧ d = l + c.ctx
+  /-- window closed: counters are zero and the last counted event is at least a timeout ago -/
+  closed : s.ctxAt = none → s.cOn = 0 ∧ s.cOff = 0 ∧ ∀ l, s.lastSet = some l → l + c.ctx ≤ t
+  /-- window open: the counters are the reference burst counts of the counted events -/
+  open_ : s.ctxAt.isSome = true →
+    s.cOn = burstCount c.ctx true s.hist ∧ s.cOff = burstCount c.ctx false s.hist
+  lastSetHist : s.lastSet = s.hist.head?.map Prod.fst
+
+theorem CInvAt.mono {c : Cfg} {s : St} {t t' : Nat} (h : CInvAt c s t) (ht : t ≤ t')
+    (hd : ∀ d, s.ctxAt = some d → t' ≤ d) : CInvAt c s t' :=
+  ⟨fun d hd' => ⟨hd d hd', (h.dl d hd').2⟩,
+   fun hn => ⟨(h.closed hn).1, (h.closed hn).2.1, fun l hl => Nat.le_trans ((h.closed hn).2.2 l hl) ht⟩,
+   h.open_, h.lastSetHist⟩
+
+theorem CInvAt.congr {c : Cfg} {s s' : St} {t : Nat} (h : CInvAt c s t)
+    (h1 : s'.ctxAt = s.ctxAt) (h2 : s'.lastSet = s.lastSet) (h3 : s'.hist = s.hist)
+    (h4 : s'.cOn = s.cOn) (h5 : s'.cOff = s.cOff) : CInvAt c s' t :=
+  ⟨fun d hd => by rw [h1] at hd; rw [h2]; exact h.dl d hd,
+   fun hn => by rw [h1] at hn; rw [h4, h5, h2]; exact h.closed hn,
+   fun hs => by rw [h1] at hs; rw [h4, h5, h3]; exact h.open_ hs,
+   by rw [h2, h3]; exact h.lastSetHist⟩
+
+theorem bump_counts (c : Cfg) (s : St) (v : Bool) (t : Nat) (h : CInvAt c s t) :
+    (bump c s v t).cOn = burstCount c.ctx true ((t, v) :: s.hist) ∧
+    (bump c s v t).cOff = burstCount c.ctx false ((t, v) :: s.hist) := by
+  have hls := h.lastSetHist
+  cases hh : s.hist with
+  | nil =>
+    rw [hh] at hls
+    simp only [List.head?_nil, Option.map_none] at hls
+    unfold bump
+    simp only [hls, Bool.false_eq_true, ↓reduceIte]
+    cases v <;> simp [burstCount]
+  | cons p rest =>
+    obtain ⟨l, b⟩ := p
+    rw [hh] at hls
+    simp only [List.head?_cons, Option.map_some] at hls
+    unfold bump
+    simp only [hls]
+    by_cases hw : t - l < c.ctx
+    · -- within the window: it must be open
+      have hopen : s.ctxAt.isSome = true := by
+        cases hc : s.ctxAt with
+        | some d => rfl
+        | none =>
+          have := (h.closed hc).2.2 l hls
+          omega
+      obtain ⟨h1, h2⟩ := h.open_ hopen
+      rw [hh] at h1 h2
+      cases v <;> simp [hw, burstCount, h1, h2] <;> omega
+    · cases v <;> simp [hw, burstCount]
+
+theorem setInternal_CInvAt (c : Cfg) (s : St) (v : Bool) (t : Nat) (h : CInvAt c s t) :
+    CInvAt c (setInternal c s v t).1 t := by
+  unfold setInternal
+  split
+  · split
+    · -- counted event
+      have hc : CInvAt c { s with st := some v } t := h.congr rfl rfl rfl rfl rfl
+      have hb := bump_counts c { s with st := some v } v t hc
+      have hf := bump_frame c { s with st := some v } v t
+      refine ⟨?_, ?_, ?_, ?_⟩
+      · intro d hd
+        simp only [Option.some.injEq] at hd
+        subst hd
+        exact ⟨Nat.le_add_right _ _, t, hf.2.2.2.2.2.2.2.2.2.1, rfl⟩
+      · intro hn; simp at hn
+      · intro _
+        simp only
+        rw [hf.2.2.2.2.2.2.2.2.2.2]
+        exact hb
+      · simp only
+        rw [hf.2.2.2.2.2.2.2.2.2.1, hf.2.2.2.2.2.2.2.2.2.2]
+        rfl
+    · exact h.congr rfl rfl rfl rfl rfl
+  · split <;> exact h
+
+theorem setInternal_ctx_frame_nobump (c : Cfg) (s : St) (v : Bool) (t : Nat) (h0 : c.ctx = 0) :
+    (setInternal c s v t).1.hist = s.hist ∧ (setInternal c s v t).1.ctxAt = s.ctxAt := by
+  unfold setInternal
+  split
+  · split
+    · rename_i h; simp [h0] at h
+    · simp
+  · split <;> simp
+
+theorem armReset_CInvAt {c : Cfg} {s : St} {t t' : Nat} (h : CInvAt c s t) : CInvAt c (armReset c s t') t :=
+  have hf := armReset_frame c s t'
+  h.congr hf.2.2.2.1 hf.2.2.2.2.2.2.2.2.2.1 hf.2.2.2.2.2.2.1 hf.2.2.2.2.2.2.2.1 hf.2.2.2.2.2.2.2.2.1
+
+theorem inputReaction_CInvAt {c : Cfg} {s : St} {o : Obs} {r : St × List Out}
+    (hr : inputReaction c s o = some r) (h : CInvAt c s o.time) : CInvAt c r.1 o.time := by
+  obtain ⟨v, t, ht, hc⟩ := inputReaction_cases hr
+  rw [ht] at h ⊢
+  rcases hc with ⟨_, _, rfl⟩ | ⟨_, _, rfl⟩ | ⟨_, _, rfl⟩ | ⟨_, _, rfl⟩
+  · unfold switchProcess
+    exact armReset_CInvAt (h.congr rfl rfl rfl rfl rfl)
+  · unfold switchProcess
+    exact armReset_CInvAt (h.congr rfl rfl rfl rfl rfl)
+  · unfold sensorWrite
+    exact armReset_CInvAt (setInternal_CInvAt c _ v t (h.congr rfl rfl rfl rfl rfl))
+  · unfold sensorResponse
+    split
+    · exact armReset_CInvAt (setInternal_CInvAt c _ v t (h.congr rfl rfl rfl rfl rfl))
+    · exact armReset_CInvAt h
+
+theorem fireReset_CInvAt (c : Cfg) (s : St) (t : Nat) (h : CInvAt c s t) : CInvAt c (fireReset c s t).1 t := by
+  unfold fireReset
+  split
+  · unfold switchProcess
+    exact armReset_CInvAt (h.congr rfl rfl rfl rfl rfl)
+  · exact setInternal_CInvAt c _ false t (h.congr rfl rfl rfl rfl rfl)
+
+theorem fireCtx_CInvAt (c : Cfg) (s : St) (t : Nat) (h : CInvAt c s t) (hd : s.ctxAt = some t) :
+    CInvAt c (fireCtx c s t).1 t := by
+  obtain ⟨_, l, hl, hdl⟩ := h.dl t hd
+  refine ⟨?_, ?_, ?_, ?_⟩
+  · intro d hd'; simp [fireCtx] at hd'
+  · intro _
+    refine ⟨rfl, rfl, ?_⟩
+    intro l' hl'
+    simp only [fireCtx] at hl'
+    rw [hl] at hl'
+    cases hl'
+    omega
+  · intro hs; simp [fireCtx] at hs
+  · simp only [fireCtx]; exact h.lastSetHist
+
+theorem advance_CInvAt {c : Cfg} {s s1 : St} {t : Nat} {incl : Bool} (hr : RInvAt c s s.now)
+    (h : CInvAt c s s.now) (ht : s.now ≤ t) (ha : advance c s t incl = some s1) : CInvAt c s1 t := by
+  obtain ⟨hcase, _, hnd⟩ := advance_spec ha
+  rcases hcase with rfl | ⟨r, hres, hdue, hrf, rfl, _⟩
+  · exact h.mono ht (fun d hd => (due_false (hnd d hd)).1)
+  · -- silent reset firing at its deadline `r`: it precedes the context deadline
+    have hnow : s.now ≤ r := (hr.arm r hres).1
+    have h1 : CInvAt c s r := h.mono hnow (fun d hd => by
+      unfold resetFirst at hrf
+      rw [hd] at hrf
+      simpa using hrf)
+    have h2 := fireReset_CInvAt c s r h1
+    have hrt : r ≤ t := by
+      unfold due at hdue
+      cases incl <;> simp at hdue <;> omega
+    exact h2.mono hrt (fun d hd => (due_false (hnd d hd)).1)
+
+/-- With a context timeout, a telegram stored as GroupValueWrite is always a counted event. -/
+theorem setInternal_counted (c : Cfg) (s : St) (v : Bool) (t : Nat) (hctx : c.ctx ≠ 0)
+    (hlw : s.lastWrite = true) :
+    (setInternal c s v t).1.hist = (t, v) :: s.hist ∧ (setInternal c s v t).1.resetAt = s.resetAt := by
+  unfold setInternal
+  have h1 : (s.st != some v || (c.ignEff && s.lastWrite)) = true := by simp [Cfg.ignEff, hctx, hlw]
+  have h2 : (c.ignEff && c.ctx != 0) = true := by simp [Cfg.ignEff, hctx]
+  rw [if_pos h1, if_pos h2]
+  have hf := bump_frame c { s with st := some v } v t
+  exact ⟨hf.2.2.2.2.2.2.2.2.2.2, hf.1⟩
+
+/-- Step invariant for the counter. -/
+def CInv (c : Cfg) (s : St) : Prop := CInvAt c s s.now
+
+theorem CInv_init (c : Cfg) : CInv c init := by
+  refine ⟨?_, ?_, ?_, ?_⟩ <;> simp [init]
+
+theorem step_CInv (c : Cfg) (s : St) (e : Obs) (s' : St) (hr : RInv c s) (h : CInv c s)
+    (hs : step? c s e = some s') : CInv c s' := by
+  obtain ⟨hnow, hc⟩ := step_cases hs
+  cases hc with
+  | consume x ho hne ht hmem hs =>
+    subst hs
+    exact CInvAt.congr h rfl rfl rfl rfl rfl
+  | fire x s1 ho he ha hf =>
+    subst ho
+    have h1 := advance_CInvAt hr.at_ h hnow ha
+    rcases fireAt_cases hf with ⟨_, _, rfl⟩ | ⟨hd, _, rfl⟩
+    · exact (fireReset_CInvAt c s1 x.time h1).congr rfl rfl rfl rfl rfl
+    · exact (fireCtx_CInvAt c s1 x.time h1 hd).congr rfl rfl rfl rfl rfl
+  | input s1 r he ha hr0 hs =>
+    subst hs
+    exact (inputReaction_CInvAt hr0 (advance_CInvAt hr.at_ h hnow ha)).congr rfl rfl rfl rfl rfl
+  | sample s1 he ha hq hs =>
+    subst hs
+    exact (advance_CInvAt hr.at_ h hnow ha).congr rfl rfl rfl rfl rfl
+
+theorem CInv_run (c : Cfg) (tr : List Obs) (s : St) (h : run? (step? c) init tr = some s) : CInv c s := by
+  have := inv_run? (step? c) (fun s => RInv c s ∧ CInv c s)
+    (fun s e s' hi hs => ⟨step_RInv c s e s' hi.1 hs, step_CInv c s e s' hi.1 hi.2 hs⟩)
+    tr init s ⟨RInv_init c, CInv_init c⟩ h
   exact this.2
 
 end XknxVerif.BinaryTimers
